@@ -278,6 +278,47 @@ func main() {
 		o.Set("vlog.gcDiscards", "vlog_gc.go:rewrite.process", "DiscardEntry;notfound=record", disc && fb, "DiscardEntry;notfound=record")
 	}
 	{
+		// miss branch: on ErrKeyNotFound / nil entry the code sets `entry = e` and then runs the SAME
+		// unconditional `if kv.DiscardEntry(e, entry) { return nil }` as for a hit; the value-log copy
+		// has no pointer bit, so a record the LSM does not hold is never re-inserted.
+		// Shape: that if-statement is a top-level statement of the `process` closure (not nested in a
+		// branch that excludes the miss case) and precedes the creation of the re-inserted entry.
+		top, nested := false, false
+		var proc *ast.FuncLit
+		if rw != nil {
+			ast.Inspect(rwb, func(x ast.Node) bool {
+				if as, ok := x.(*ast.AssignStmt); ok && proc == nil && len(as.Lhs) == 1 && gf.Src(as.Lhs[0]) == "process" && len(as.Rhs) == 1 {
+					if fl, ok := as.Rhs[0].(*ast.FuncLit); ok {
+						proc = fl
+					}
+				}
+				return true
+			})
+		}
+		if proc != nil {
+			for _, st := range proc.Body.List {
+				if is, ok := st.(*ast.IfStmt); ok && is.Init == nil && is.Else == nil && gf.Src(is.Cond) == "kv.DiscardEntry(e, entry)" &&
+					len(is.Body.List) == 1 && gf.Src(is.Body.List[0]) == "return nil" {
+					top = true
+				}
+			}
+			for _, c := range ifReturning(gf, proc.Body, "return nil") {
+				if c == "kv.DiscardEntry(e, entry)" {
+					nested = true
+				}
+			}
+		}
+		switch {
+		case proc != nil && top:
+			o.Set("vlog.gcMissIsLive", "vlog_gc.go:rewrite.process", "false", true, "")
+		case proc != nil && nested:
+			// DiscardEntry still there but only on some branch: the miss path may get through
+			o.Set("vlog.gcMissIsLive", "vlog_gc.go:rewrite.process", "true", true, "")
+		default:
+			o.Set("vlog.gcMissIsLive", "vlog_gc.go:rewrite.process", "", false, "false")
+		}
+	}
+	{
 		// re-inserted entry: same internal key, Meta = 0, value copied from the record
 		ok := rw != nil && gf.HasStmt(rwb, "ne.Key = append(ne.Key[:0], e.Key...)") && gf.HasStmt(rwb, "ne.Value = append(ne.Value[:0], e.Value...)")
 		o.Set("vlog.gcKeepsKey", "vlog_gc.go:rewrite.process", "true", ok, "true")
@@ -352,9 +393,9 @@ func main() {
 	lean := "-- GENERATED by /verif/extract/cmd/vlog from the current /repo working tree. Do not edit.\n" +
 		"import NoKVModel.Vlog.Model\n\nnamespace NoKV.Generated.Vlog\nopen NoKV NoKV.Vlog\n\n" +
 		"def vcfg : VCfg :=\n" +
-		fmt.Sprintf("  { thresholdOp := %s, rotateOp := %s, gcFidOp := %s, gcOffOp := %s,\n    gcChecksBucket := %s, postCheckLive := %s }\n\n",
+		fmt.Sprintf("  { thresholdOp := %s, rotateOp := %s, gcFidOp := %s, gcOffOp := %s,\n    gcChecksBucket := %s, postCheckLive := %s,\n    gcMissIsLive := %s }\n\n",
 			elib.LeanOp(b("vlog.thresholdOp")), elib.LeanOp(b("vlog.rotateOp")), elib.LeanOp(b("vlog.gcFidOp")), elib.LeanOp(b("vlog.gcOffOp")),
-			b("vlog.gcChecksBucket"), pc) +
+			b("vlog.gcChecksBucket"), pc, b("vlog.gcMissIsLive")) +
 		"end NoKV.Generated.Vlog\n"
 	o.Write(*jsonOut, *leanOut, lean)
 }
